@@ -58,7 +58,7 @@ CHECKS.update({
     "C07": dict(
         engine="PySym + DeCy",
         technique="bounded symbolic execution (PySym/z3) of the DeCy translation of readselect.pyx (with priorityqueue.pyx, coverage.py, graph.py) with symbolic cap, qualities, source ids and unordered_set iteration order; plus a z3 lemma over unbounded integers for the per-member cap expression extracted from phase.py's AST; every path replayed on the rebuilt compiled readselect/core",
-        text="Sub-check covmon: CovMonitor alone against its definition, index ranges over small values and the neighbourhood of every integer literal harvested from coverage.py (block sizes of a bucketed implementation enter the bound by themselves). All read/variant incidence structures with <= 3 (thorough 4) reads over <= 4 variants: subset, span coverage <= k, maximality, independence of the C++ unordered_set order; arithmetic lemma: family_size * max(1, k // family_size) <= k for all 1 <= family_size <= k, and the 23 validation bound.",
+        text="Sub-check phase_select: phase.select_reads (what `whatshap phase` hands to the solver) over the DeCy readselection, 3 (4) reads covering solver-chosen subsets of 4 variants incl. gapped reads, k in {1,2}: no variant spanned more than k times. Sub-check covmon: CovMonitor alone against its definition, index ranges over small values and the neighbourhood of every integer literal harvested from coverage.py (block sizes of a bucketed implementation enter the bound by themselves). All read/variant incidence structures with <= 3 (thorough 4) reads over <= 4 variants: subset, span coverage <= k, maximality, independence of the C++ unordered_set order; arithmetic lemma: family_size * max(1, k // family_size) <= k for all 1 <= family_size <= k, and the 23 validation bound.",
         note="Trusted: DeCy shims, core model (validated by the repo's readselect tests on the translation and by per-path replay on the compiled module). Outside: more than 4 reads / 4 variants.",
         design_ref="DESIGN.md §4 C07, §9",
     ),
